@@ -185,7 +185,94 @@ async fn full_mailbox(idx: usize) -> Value {
            "target_gone": node.registry().get(&t).await.is_none(), "notes": Vec::<String>::new()})
 }
 
+/// LocalProc!Register is one atomic step: of several tasks registering the same free name for different live processes at the
+/// same moment exactly one is told it holds the name, and the name resolves to that one's process
+async fn register_race(idx: usize) -> Value {
+    let mut node = Node::new(format!("rr{}@127.0.0.1", idx % 5 + 1), COOKIE);
+    if node.start(0).await.is_err() {
+        return json!({"tool_error": "node start"});
+    }
+    let node = Arc::new(node);
+    let log = Arc::new(Mutex::new(Vec::new()));
+    let mut pids = Vec::new();
+    for i in 0..8 {
+        pids.push(node.spawn(Recorder { tag: format!("p{i}"), log: log.clone() }).await.expect("spawn"));
+    }
+    let rounds = 4000usize;
+    let mut bad_rounds = 0usize;
+    let mut example = Value::Null;
+    for r in 0..rounds {
+        let name = Atom::new(&format!("svc{r}"));
+        let barrier = Arc::new(tokio::sync::Barrier::new(pids.len()));
+        let mut hs = Vec::new();
+        for p in pids.iter() {
+            let (n, nm, p, b) = (node.clone(), name.clone(), p.clone(), barrier.clone());
+            hs.push(tokio::spawn(async move {
+                b.wait().await;
+                n.register(nm, p).await.is_ok()
+            }));
+        }
+        let mut winners = Vec::new();
+        for (i, h) in hs.into_iter().enumerate() {
+            if h.await.unwrap_or(false) {
+                winners.push(i);
+            }
+        }
+        let resolves = node.whereis(&name).await;
+        let resolves_to = resolves.as_ref().and_then(|p| pids.iter().position(|q| q == p));
+        if winners.len() != 1 || resolves_to != winners.first().copied() {
+            bad_rounds += 1;
+            if example.is_null() {
+                example = json!({"round": r, "tasks_told_they_hold_the_name": winners, "name_resolves_to_task": resolves_to});
+            }
+        }
+        let _ = node.unregister(&name).await;
+    }
+    // the same on a single-threaded runtime with a forced switch at every await point in turn: tokio makes a task yield at the
+    // next await once it has used up its budget of 128 operations, so a task that first performs k cheap lookups and then
+    // registers is preempted inside register at a point that moves with k
+    let reg = node.registry();
+    let (pa, pb) = (pids[0].clone(), pids[1].clone());
+    let sweep = std::thread::spawn(move || {
+        let rt = tokio::runtime::Builder::new_current_thread().enable_all().build().expect("rt");
+        rt.block_on(async move {
+            let mut bad = Vec::new();
+            for k in 0..300usize {
+                let name = Atom::new(&format!("sweep{k}"));
+                let other = Atom::new("nobody");
+                let (r1, n1, p1, o1) = (reg.clone(), name.clone(), pa.clone(), other.clone());
+                let a = tokio::spawn(async move {
+                    for _ in 0..k {
+                        let _ = r1.whereis(&o1).await;
+                    }
+                    r1.register(n1, p1).await.is_ok()
+                });
+                let (r2, n2, p2) = (reg.clone(), name.clone(), pb.clone());
+                let b = tokio::spawn(async move { r2.register(n2, p2).await.is_ok() });
+                let (ra, rb) = (a.await.unwrap_or(false), b.await.unwrap_or(false));
+                let holder = reg.whereis(&name).await;
+                let consistent = (ra != rb) && holder.as_ref() == Some(if ra { &pa } else { &pb });
+                if !consistent && bad.len() < 3 {
+                    bad.push(json!({"lookups_before_register": k, "first_task_told_ok": ra, "second_task_told_ok": rb, "name_resolves": holder.is_some()}));
+                }
+                let _ = reg.unregister(&name).await;
+            }
+            bad
+        })
+    }).join().unwrap_or_default();
+    if !sweep.is_empty() {
+        bad_rounds += sweep.len();
+        if example.is_null() {
+            example = json!({"forced_switch_sweep": sweep});
+        }
+    }
+    json!({"adversarial": "register_race", "rounds": rounds, "tasks": pids.len(), "bad_rounds": bad_rounds, "example": example, "notes": Vec::<String>::new()})
+}
+
 async fn run_one(sc: &Value, idx: usize) -> Value {
+    if sc["adversarial"].as_str() == Some("register_race") {
+        return register_race(idx).await;
+    }
     if sc["adversarial"].as_str() == Some("name_move") {
         return name_move(idx).await;
     }
